@@ -403,6 +403,7 @@ pub fn build(d: &mut Dna, cfg: &GenCfg) -> Built {
             let mut forced_ty: Option<FTy> = None;
             let mut default_expect: Option<String> = None;
             let mut default_slot = false;
+            let mut deref_unwrapped: Option<FTy> = None;
             let union_ = kind == Kind::Union;
 
             if want_unsized && fi + 1 == nfields {
@@ -411,9 +412,12 @@ pub fn build(d: &mut Dna, cfg: &GenCfg) -> Built {
             // ---- Deref / DerefMut / Into designation decides the type
             if has(Tr::Deref) && (fi == deref_pos || fi == deref_mut_pos) {
                 let mut t = deref_ty.clone().unwrap();
-                if fi == deref_pos && fi == deref_mut_pos && gens.lifetimes.len() > 0 && !has(Tr::DerefMut) && d.chance(25) {
+                if fi == deref_pos && fi == deref_mut_pos && gens.lifetimes.len() > 0 && d.chance(25) {
                     let lt = gens.lifetimes[0].0.clone();
-                    if let Some(r) = wrap(Wrapk::Ref, &t, Some(&lt)) {
+                    // `&T`, `&&T` and `&mut T` fields are looked through; DerefMut needs the mutable one
+                    let k = if has(Tr::DerefMut) { Wrapk::RefMut } else { [Wrapk::Ref, Wrapk::Ref, Wrapk::RefRef, Wrapk::RefMut][d.pick(4)] };
+                    if let Some(r) = wrap(k, &t, Some(&lt)) {
+                        deref_unwrapped = Some(t.clone());
                         t = r;
                         classes.push("deref_reference_field");
                     }
@@ -615,8 +619,8 @@ pub fn build(d: &mut Dna, cfg: &GenCfg) -> Built {
             if let Some(t) = &forced_ty {
                 if t.caps & need != need {
                     // a reference-wrapped Deref field that cannot satisfy the other traits: unwrap it
-                    if let Some(b) = base.iter().find(|b| format!("&'static {}", b.inst) == t.inst) {
-                        forced_ty = Some(b.clone());
+                    if let Some(b) = deref_unwrapped.take() {
+                        forced_ty = Some(b);
                     }
                 }
             }
